@@ -29,7 +29,7 @@ fn set_by_name(
         let slot_index = slot.index as usize;
 
         if slot.attributes.is_accessor_descriptor() {
-            let result = if slot.attributes.contains(SlotAttributes::PROTOTYPE) {
+            let setter = if slot.attributes.contains(SlotAttributes::PROTOTYPE) {
                 let prototype = shape.prototype().expect("prototype should have value");
                 let prototype = prototype.borrow();
 
@@ -38,21 +38,20 @@ fn set_by_name(
                 object_borrowed.properties().storage[slot_index + 1].clone()
             };
 
-            drop(object_borrowed);
-            if slot.attributes.has_set() && result.is_object() {
-                result.as_object().expect("should contain getter").call(
-                    receiver,
-                    std::slice::from_ref(&value),
-                    context,
-                )?;
+            // NOTE: The setter can be replaced by `undefined` without a shape change,
+            //       in which case the ordinary `[[Set]]` below reports the failure.
+            if slot.attributes.has_set()
+                && let Some(setter) = setter.as_object()
+            {
+                drop(object_borrowed);
+                setter.call(receiver, std::slice::from_ref(&value), context)?;
+                return Ok(());
             }
-            return Ok(());
         }
-
         // A data property can only be overwritten in place if it is a writable own property of
         // the receiver itself. In every other case (`super.x = v` with another `this`, a property
         // found on the prototype) the property has to be defined on the receiver.
-        if slot.attributes.contains(SlotAttributes::WRITABLE)
+        else if slot.attributes.contains(SlotAttributes::WRITABLE)
             && !slot.attributes.contains(SlotAttributes::PROTOTYPE)
             && receiver
                 .as_object()
